@@ -2883,4 +2883,22 @@ pub mod verif {
     pub fn parse_string(src: &str, i: usize) -> R<(usize, usize)> {
         with_parser(src, |p| p.parse_string(i).map(|(j, s)| (j, s.len())))
     }
+
+    /// The scanners that return text (the unescaped string, the action code, the rest of the line,
+    /// the text before a single colon), with that text.
+    pub fn parse_string_text(src: &str, i: usize) -> R<(usize, String)> {
+        with_parser(src, |p| p.parse_string(i))
+    }
+
+    pub fn parse_action_text(src: &str, i: usize) -> R<(usize, String)> {
+        with_parser(src, |p| p.parse_action(i))
+    }
+
+    pub fn parse_to_eol_text(src: &str, i: usize) -> R<(usize, String)> {
+        with_parser(src, |p| p.parse_to_eol(i))
+    }
+
+    pub fn parse_to_single_colon_text(src: &str, i: usize) -> R<(usize, String)> {
+        with_parser(src, |p| p.parse_to_single_colon(i))
+    }
 }
